@@ -219,13 +219,32 @@ def library_purity(ctx, oq, r, wd, sig):
                 if lifecycle.crash_hazard(kind, wd, wq, None):
                     wq = "qfloat8"
                 model, shape = lifecycle.build(kind, wd)
-                refs = {n: (p.data, fp.plain_bytes(p.data)) for n, p in model.named_parameters()}
+                tied = None
+                if r.random() < 0.4:
+                    # a float parameter the caller still reads after quantize(): tied to a module that is not quantized
+                    # (embedding <-> output projection), kept by an optimizer, an EMA copy ...
+                    lin = next((m_ for m_ in model.modules() if isinstance(m_, nn.Linear)), None)
+                    if lin is not None:
+                        tied = nn.Embedding(lin.weight.shape[0], lin.weight.shape[1]).to(wd)
+                        tied.weight = lin.weight
+                        ctx.count("tied_parameters")
+
+                def snap(params):
+                    # the Parameter objects themselves are held (not aliases of their storage): re-pointing .data shows too
+                    return {n: (p_, tuple(p_.shape), str(p_.dtype), fp.plain_bytes(p_.data)) for n, p_ in params}
+
+                def same(s_):
+                    return all(tuple(p_.shape) == shp and str(p_.dtype) == dt and fp.plain_bytes(p_.data) == b
+                               for p_, shp, dt, b in s_.values())
+
+                refs = snap(list(model.named_parameters()))
                 oq.quantize(model, weights=oq.qtypes[wq], activations=oq.qint8 if r.random() < 0.5 else None)
-                ok = all(fp.plain_bytes(t) == b for t, b in refs.values())
-                live = {n: (p.data, fp.plain_bytes(p.data)) for n, p in model.named_parameters()}
+                ok = same(refs)
+                if tied is not None:
+                    tied(torch.zeros(2, dtype=torch.long))  # the tied module must still work
+                live = snap([(n, p_) for n, p_ in model.named_parameters() if type(p_.data) is torch.Tensor])
                 oq.freeze(model)
-                ok = ok and all(fp.plain_bytes(t) == b for t, b in live.values())
-                ok = ok and all(fp.plain_bytes(t) == b for t, b in refs.values())
+                ok = ok and same(live) and same(refs)
             else:
                 try:
                     with qops.disable_extensions():
